@@ -124,7 +124,10 @@ def pq_batch(cmds, nproc=8):
 def tag(x):
     """first element of a pqref result as str ('ok', 'oob', 'ub', 'fuel', 'error')"""
     if isinstance(x, list) and x and isinstance(x[0], (bytes, bytearray)):
-        return bytes(x[0]).decode()
+        try:
+            return bytes(x[0]).decode()
+        except UnicodeDecodeError:
+            return None
     return None
 
 
@@ -136,19 +139,23 @@ def vals_to_bytes(vals, isz):
     return bytes(int(v) & 0xff for v in vals)
 
 
-def expect_outbuf(vals, isz, cap):
+def expect_outbuf(vals, isz, cap, guard=GUARD):
     """The whole output allocation (capacity + guard) the worker returns when exactly `vals` were stored."""
-    b = vals_to_bytes(vals, isz)
-    return (b + bytes([FILL]) * (cap + GUARD - len(b))).hex()
+    return expect_raw(vals_to_bytes(vals, isz), cap, guard)
 
 
-def model_decoder_view(mo, isz, cap):
+def expect_raw(b, cap, guard=GUARD):
+    b = bytes(b)[:cap + guard]
+    return (b + bytes([FILL]) * (cap + guard - len(b))).hex()
+
+
+def model_decoder_view(mo, isz, cap, guard=GUARD):
     """Canonical comparable view of a decoder result of the impl model: [outbuf_hex, in_loc, out_loc] or the tag."""
     t = tag(mo)
     if t != "ok":
         return t
     vals, used, written = mo[1], mo[2], mo[3]
-    return [expect_outbuf(vals, isz, cap), used, written]
+    return [expect_outbuf(vals, isz, cap, guard), used, written]
 
 
 def impl_decoder_view(r):
